@@ -275,6 +275,10 @@ example : saxTree [] [.open "m".toList [], .chars "t".toList, .open "a".toList [
     .close "m".toList] [] none
     = some (.node "m".toList [] [] (some "t".toList) [.node "a".toList [] [] none [] none] none) := rfl
 
+-- … and this call stream is what the un-indented writer issues for `mixedWitness` (hypothesis `hp`)
+example : eventsSax [] (fun _ => false) mixedWitness
+    = .ok [.open "m".toList [], .chars "t".toList, .open "a".toList [], .close "a".toList, .close "m".toList] := rfl
+
 example : "  ".toList ≠ [] ∧ "  ".toList.all Env.ascii.isSpace = true ∧ "\t".toList.all Env.ascii.isSpace = true := by
   decide
 
